@@ -16,6 +16,8 @@ Not decided: bitwise equality; estimators whose batch path is a Python loop over
 Added after the seeding rounds (DESIGN.md 6.6-6.8):
  ROWWISE / TWIN.from_DCM / TWIN.band  per-sample calls take and fill row t; the array constructor equals the scalar one on each pivot arm (sample-selected paths);
             the two arms of the closed-form converters gate their shortcuts on the same angle band.
+Added after refactoring round 3 (DESIGN.md 6.9):
+ ROWWISE.route  a batch estimator whose N-sample arm has no per-row estimate() call and is not twin-proved (Tilt, SAAM) gets no verdict (exit 2) instead of a silent pass.
 """
 import ast
 import numpy as np
@@ -341,6 +343,9 @@ def dispatch_rule(chk, prog):
         chk.ob("DISPATCH", "%s::%s[unknown]" % (ref, route), "an unknown method name raises ValueError", rej, module=f.module.rel, function=f.qname, construct="unknown method rejected via %s" % route)
 
 
+TWIN_PROVED = {"Tilt", "SAAM"}       # vectorised N-sample arms compared with estimate() by TWIN.estimator
+
+
 def rowwise_rule(chk, prog):
     """ROWWISE: in every batch routine a per-sample call `self.estimate(...)` made inside a loop or comprehension over t takes row t of each data array
     (the loop variable itself as the index, no offset, no constant) and, in the loop form, stores the result in row t of the output"""
@@ -386,6 +391,25 @@ def rowwise_rule(chk, prog):
                             chk.finding("ROWWISE", rel, f.qname, "per-sample call %s" % ast.unparse(call)[:70], "; ".join(problems), line=call.lineno)
                         else:
                             chk.record("ROWWISE", site, "the call takes row %s of every data array%s" % (var, " and fills row %s" % var if isinstance(scope, ast.For) else ""))
+    # a batch estimator whose N-sample arm no longer goes through estimate() row by row is a second implementation of the estimator: unless it is one of
+    # the routines proved equal to estimate() by TWIN.estimator it cannot be decided here (no verdict, not an alarm)
+    for key in BATCH_ESTIMATORS:
+        cls = prog.cls(F + key)
+        f = cls.lookup("_compute_all")
+        if f is None or cls.name in TWIN_PROVED:
+            continue
+        g = desugared(f)
+        per_row = 0
+        for node in ast.walk(g.node):
+            body = node.body if isinstance(node, ast.For) else ([node.elt] if isinstance(node, (ast.ListComp, ast.GeneratorExp)) else None)
+            if body is None:
+                continue
+            per_row += sum(1 for b in body for call in ast.walk(b) if isinstance(call, ast.Call) and ast.unparse(call.func) == "self.estimate")
+        if per_row == 0:
+            chk.error("ROWWISE.route: %s._compute_all has no per-row self.estimate(...) call any more: its N-sample arm is a separate implementation that is not among the "
+                      "routines proved equal to estimate() (%s) - cannot decide" % (cls.name, ", ".join(sorted(TWIN_PROVED))))
+        else:
+            chk.record("ROWWISE.route", f.ref, "the N-sample arm produces its rows through self.estimate (%d per-row call sites)" % per_row)
     if n < 6:
         chk.error("ROWWISE: only %d per-sample estimate calls indexed by a loop variable found in batch routines (10 confirmed by hand)" % n)
 
